@@ -566,9 +566,11 @@ pub fn fp_case() -> BoxedStrategy<FpCase> {
     let target = prop_oneof![
         3 => Just(None),
         4 => [coord(), coord(), coord()].prop_map(Some),
-        // straight up / down / the camera's own position (offset filled in below)
+        // straight up / down (offset from the camera position filled in below)
         1 => Just(Some([f32::NAN, 1.0, 0.0])),
         1 => Just(Some([f32::NAN, -1.0, 0.0])),
+        // within a fraction of a degree of straight up / down, but not exactly vertical
+        2 => (log_uniform(-5.0, -2.0), -1.0f32..1.0, any::<bool>()).prop_map(|(e, k, up)| Some([f32::NAN, if up { 1.0 } else { -1.0 }, e * 1e3 + k * 1e-9])),
     ];
     (
         [coord(), coord(), coord()],
@@ -578,7 +580,15 @@ pub fn fp_case() -> BoxedStrategy<FpCase> {
         [-10.0f32..10.0, -10.0f32..10.0, -10.0f32..10.0],
     )
         .prop_map(|(pos, target, az, alt, delta)| {
-            let target = target.map(|t| if t[0].is_nan() { [pos[0], pos[1] + t[1] * 7.0, pos[2]] } else { t });
+            let target = target.map(|t| {
+                if t[0].is_nan() {
+                    // t[2] != 0 encodes a small horizontal offset (relative to the 7-unit vertical distance, scaled by 1e3)
+                    let e = t[2] / 1e3;
+                    [pos[0] + 7.0 * e, pos[1] + t[1] * 7.0, pos[2] + 3.0 * e]
+                } else {
+                    t
+                }
+            });
             FpCase { pos: xs(pos), target: target.map(xs), az: X(az), alt: X(alt), delta: xs(delta) }
         })
         .boxed()
@@ -654,8 +664,8 @@ pub fn check_fp(c: &FpCase, obs: &mut Obs) -> Check {
                 &v[..3]
             );
             let hl = (d[0] * d[0] + d[2] * d[2]).sqrt();
-            horizontal_heading = if hl > 1e-3 * dist { Some([d[0] / hl, 0.0, d[2] / hl]) } else { None };
-            obs.class(if hl <= 1e-3 * dist { "look-at:vertical" } else { "look-at:general" });
+            horizontal_heading = if hl > 1e-2 * dist { Some([d[0] / hl, 0.0, d[2] / hl]) } else { None };
+            obs.class(if hl <= 1e-6 * dist { "look-at:exactly-vertical" } else if hl <= 1e-2 * dist { "look-at:nearly-vertical" } else { "look-at:general" });
         }
         None => {
             // heading from azimuth (wrapped) and altitude (clamped to +-90 degrees)
